@@ -61,7 +61,7 @@ def norm_msg(msg):
 
 class RT:
     """Result of one round trip."""
-    __slots__ = ("ok", "stage", "msg", "bad", "noise", "t1", "t2", "reordered", "mptr", "spec")
+    __slots__ = ("ok", "stage", "msg", "bad", "noise", "t1", "t2", "reordered", "mptr", "spec", "perm")
 
 
 _DBUF = None
@@ -93,7 +93,7 @@ def roundtrip(lib, xml, vfs, keep=False):
     first model pointer and spec are kept alive in the result (caller frees with release())."""
     r = RT()
     r.ok = False
-    r.bad, r.noise, r.t1, r.t2, r.reordered, r.mptr, r.spec = [], [], None, None, False, None, None
+    r.bad, r.noise, r.t1, r.t2, r.reordered, r.mptr, r.spec, r.perm = [], [], None, None, False, None, None, None
     spec = spec2 = None
     p1 = p2 = None
     try:
@@ -115,7 +115,10 @@ def roundtrip(lib, xml, vfs, keep=False):
             r.stage, r.msg = "reload", str(e)
             return r
         if not fast_equal(lib, p1, p2):
-            r.bad, r.noise = R.compare(lib, mj.Model(lib, p1, own=False), mj.Model(lib, p2, own=False), TOL64)
+            ma, mb = mj.Model(lib, p1, own=False), mj.Model(lib, p2, own=False)
+            r.bad, r.noise = R.compare(lib, ma, mb, TOL64)
+            if r.bad:
+                r.perm = R.permuted(ma, mb)
         try:
             r.t2 = R.save_string(lib, spec2)
         except mj.MjError as e:
@@ -153,7 +156,12 @@ def judge(part, r, key_prefix, what_prefix, replay):
                        "%s: %s of the saved MJCF failed: %s" % (what_prefix, r.stage, norm_msg(r.msg)), replay)
         return False
     clean = True
-    if r.bad:
+    if r.bad and r.perm:
+        part.violation("object ids are permuted by save/reload: elements inside <frame>/<replicate> are written after the body's direct children",
+                       "%s: the reloaded model has its %ss in a different order (%s)" % (what_prefix, r.perm, "; ".join("%s (%s)" % (f, e) for f, e in r.bad[:5])),
+                       replay)
+        clean = False
+    elif r.bad:
         fields = ",".join(f for f, _ in r.bad[:4])
         part.violation("%s: arrays differ after save/reload [%s]" % (key_prefix, fields),
                        "%s: recompiled saved MJCF differs in %s" % (what_prefix, "; ".join("%s (%s)" % (f, e) for f, e in r.bad[:8])),
@@ -376,7 +384,7 @@ SPECIALS = [
      '<mujoco><default><default class="a"><geom rgba="1 0 0 1" size="0.03"/><default class="b"><geom type="box"/></default></default></default>'
      '<worldbody><body name="b1"><joint/><geom name="g0" size="0.02"/><frame name="f1" childclass="a" pos="0.1 0 0" euler="0 0 30">'
      '<geom name="g1"/><frame name="f2" childclass="b" zaxis="0 1 1"><geom name="g2" size="0.02 0.03 0.04"/>'
-     '<body name="b2" pos="0 0 0.2"><joint type="ball"/><geom name="g3"/></body></frame></frame></body></worldbody></mujoco>'),
+     '<body name="b2" pos="0 0 0.2"><joint type="ball"/><geom name="g3" size="0.02 0.03 0.05"/></body></frame></frame></body></worldbody></mujoco>'),
     ("keyframe with mocap and act",
      '<mujoco><worldbody><body name="m" mocap="true" pos="0 0 1"><geom size="0.01" contype="0" conaffinity="0"/></body>'
      '<body name="b"><joint name="j"/><geom size="0.1"/></body></worldbody>'
